@@ -45,6 +45,9 @@ SCOPES = ('signature_extensions', 'check_template')
 FIELDS = {'sigfield1': b'hello', 'sigfield2': b'w'}
 CIDS = {'c1': b'\x01' * 4, 'c2': b'\x02' * 4}
 ALIASES = {'QQDUP': 'OP_DUP', 'ZZSHA': 'OP_SHA256'}
+# a second registration of the same alias, spelled in lower case, for ANOTHER
+# instruction: the alias that is active stays what it is ("already in use")
+ALT = {'QQDUP': 'OP_SHA256', 'ZZSHA': 'OP_DUP'}
 
 
 def shards(tier, seed):
@@ -127,7 +130,8 @@ def iface_actions():
 
 
 def other_actions():
-    return [('alias', 'QQDUP'), ('alias', 'ZZSHA'), ('run', 0), ('run', 1),
+    return [('alias', 'QQDUP'), ('alias', 'ZZSHA'), ('alias_lc', 'QQDUP'),
+            ('alias_lc', 'ZZSHA'), ('alias_builtin',), ('run', 0), ('run', 1),
             ('compile', 0), ('compile', 1), ('compile', 2), ('compile', 3)]
 
 
@@ -144,12 +148,13 @@ class Model:
         self.plugins = {0: [], 1: []}
         self.contracts = {}
         self.ifaces = set()
-        self.aliases = set()
+        self.aliases = {}
 
     def key(self):
         return (tuple(sorted(self.plugins[0])), tuple(sorted(self.plugins[1])),
                 tuple(sorted(self.contracts.items())),
-                tuple(sorted(self.ifaces)), tuple(sorted(self.aliases)))
+                tuple(sorted(self.ifaces)),
+                tuple(sorted(self.aliases.items())))
 
     def apply(self, a):
         k = a[0]
@@ -170,7 +175,10 @@ class Model:
         elif k == 'irem':
             self.ifaces.discard(a[1])
         elif k == 'alias':
-            self.aliases.add(a[1])
+            self.aliases.setdefault(a[1], ALIASES[a[1]])
+        elif k == 'alias_lc':
+            self.aliases.setdefault(a[1], ALT[a[1]])
+        # alias_builtin: a built-in alias is in use, nothing changes
 
 
 def do_action(a, ctx=None):
@@ -207,6 +215,16 @@ def do_action(a, ctx=None):
             functions.add_alias(a[1], ALIASES[a[1]])
         except ValueError:
             pass                        # already in use: adding twice is a no-op
+    elif k == 'alias_lc':
+        try:
+            functions.add_alias(a[1].lower(), ALT[a[1]].lower())
+        except ValueError:
+            pass
+    elif k == 'alias_builtin':
+        try:
+            functions.add_alias('verify', 'OP_DUP')
+        except ValueError:
+            pass
     elif k == 'run':
         # a run with caller-supplied dictionaries must not register anything
         # nor modify them
@@ -315,19 +333,25 @@ def probe_state():
         except BaseException:
             pass
     out.append(tuple(ifs))
-    # aliases
+    # aliases: which instruction each spelling compiles to
     al = []
-    for alias, opn in sorted(ALIASES.items()):
+    for alias in sorted(ALIASES):
+        seen = set()
         for spelling in (alias, alias.lower()):
             try:
                 b = parsing.compile_script(spelling)
-                if b == bytes([isa.CODE[opn]]):
-                    if alias not in al:
-                        al.append(alias)
-                else:
-                    al.append(alias + ':WRONG')
+                seen.add(isa.NAMES[b[0]] if len(b) == 1
+                         and b[0] < len(isa.NAMES) else 'OTHER')
             except BaseException:
-                pass
+                seen.add(None)
+        if seen == {None}:
+            continue
+        al.append((alias, seen.pop() if len(seen) == 1 else 'INCONSISTENT'))
+    try:
+        if parsing.compile_script('verify') != bytes([isa.CODE['OP_VERIFY']]):
+            al.append(('VERIFY', 'REPOINTED'))
+    except BaseException:
+        al.append(('VERIFY', 'GONE'))
     out.append(tuple(al))
     return tuple(out), dup
 
@@ -381,8 +405,8 @@ def minimal_adds(key):
         acts.append(('cadd', cid, obj))
     for i in key[3]:
         acts.append(('iadd', i))
-    for a in key[4]:
-        acts.append(('alias', a))
+    for a, opn in key[4]:
+        acts.append(('alias', a) if opn == ALIASES[a] else ('alias_lc', a))
     return acts
 
 
